@@ -536,9 +536,16 @@ func HashSetOfValueCopy(vm *Thread, target *HashSetOfValue, source *HashSetOfVal
 		if i == -1 {
 			panic("no room in target hashmap during copy")
 		}
+		previous := target.table[i]
 		target.table[i] = entry
-		target.occupiedSlots++
-		target.elements++
+		if previous.IsUndefined() {
+			// a new value in a slot that was never used
+			target.occupiedSlots++
+			target.elements++
+		} else if previous == DeletedHashSetValue {
+			// a new value in a slot left by a deleted value
+			target.elements++
+		}
 	}
 
 	return value.Undefined
